@@ -19,7 +19,13 @@
      gro        gro.py               read_as_traj drops n_frames: reads everything left, then [::str]; seek raises
      dtr        dtr.pyx              read_as_traj drops n_frames; times[start:last:str]; counter += frames returned
      arc        arc.py               skip loop lets _EOF escape; atom_indices / empty result raise; seek raises
-     pdb        pdbfile.py           load all models, then index (handled in [load]/[iterload]) *)
+     pdb b      pdbfile.py           load all models, then index (handled in [load]/[iterload]); b = repaired
+                                     (frame together with atom_indices no longer trips the assertion)
+     seqnoseek  gro.py / arc.py after the proposed repair of read(): the seq reader, seek() still raises
+
+   Scope of the model (what the correspondence exercises): 1 <= T < 100 frames, stride >= 1, skip <= T,
+   frame < T.  n_frames=None of the sequential readers is modelled as T+1 loop iterations (the loops stop at
+   EOF), read() of xtc/trr as one read-ahead chunk larger than the file. *)
 From Coq Require Import List Arith Bool Lia.
 Import ListNotations.
 Require Import MD.Lib.Strided.
